@@ -20,6 +20,7 @@ import (
 	"net"
 	"net/netip"
 	"sort"
+	"strings"
 
 	"github.com/vishvananda/netlink"
 
@@ -38,6 +39,7 @@ import (
 const (
 	parentDev = "eth0"
 	vxlanDev  = "vxlan.calico"
+	vxlanDev6 = "vxlan-v6.calico"
 	ipipDev   = "tunl0"
 )
 
@@ -98,20 +100,28 @@ func (fakeNL) LinkList() ([]netlink.Link, error) {
 }
 
 func (fakeNL) AddrList(link netlink.Link, family int) ([]netlink.Addr, error) {
-	if link.Attrs().Name != parentDev || family != netlink.FAMILY_V4 {
+	if link.Attrs().Name != parentDev {
 		return nil, nil
+	}
+	cands := nodeAddrCands
+	if family == netlink.FAMILY_V6 {
+		cands = nodeAddr6Cands
 	}
 	var out []netlink.Addr
 	seen := map[string]bool{}
 	// (the local node may, in a history, be given any address of the universe)
 	for _, n := range nodeNames {
-		for _, cidr := range nodeAddrCands[n] {
+		for _, cidr := range cands[n] {
 			p := netip.MustParsePrefix(cidr)
 			if seen[p.Addr().String()] {
 				continue
 			}
 			seen[p.Addr().String()] = true
-			out = append(out, netlink.Addr{IPNet: &net.IPNet{IP: net.ParseIP(p.Addr().String()).To4(), Mask: net.CIDRMask(p.Bits(), 32)}})
+			ipa := net.ParseIP(p.Addr().String())
+			if p.Addr().Is4() {
+				ipa = ipa.To4()
+			}
+			out = append(out, netlink.Addr{IPNet: &net.IPNet{IP: ipa, Mask: net.CIDRMask(p.Bits(), p.Addr().BitLen())}})
 		}
 	}
 	return out, nil
@@ -122,7 +132,8 @@ type fakeFDB struct{ n int64 }
 func (f *fakeFDB) SetVTEPs([]vxlanfdb.VTEP) { f.n++ }
 
 type mgrSink struct {
-	rt   *recRouteTable
+	rt   *recRouteTable // IPv4 main table
+	rt6  *recRouteTable // IPv6 main table (int_dataplane gives the v6 managers their own RouteTable)
 	mgrs []intdataplane.VerifRouteManager
 	msgs int64
 }
@@ -136,11 +147,15 @@ func newMgrSink(c *harness.Case, s *state) dpSink {
 		ProgramIPIPClusterRoutes: true,
 		RulesConfig:              rules.Config{VXLANVNI: 4096, VXLANPort: 4789},
 	}
-	k := &mgrSink{rt: rt}
+	rt6 := &recRouteTable{routes: map[routetable.RouteClass]map[string][]routetable.Target{}}
+	k := &mgrSink{rt: rt, rt6: rt6}
 	k.mgrs = append(k.mgrs,
 		intdataplane.VerifNewVXLANManager(dpsets.NewMockIPSets(), rt, &fakeFDB{}, vxlanDev, 4, 1410, cfg, fakeNL{}),
 		intdataplane.VerifNewIPIPManager(rt, ipipDev, 4, 1440, cfg, fakeNL{}),
 		intdataplane.VerifNewNoEncapManager(rt, 4, cfg, fakeNL{}),
+		// as int_dataplane.go builds the IPv6 instances (non-BPF: own device, own route table)
+		intdataplane.VerifNewVXLANManager(dpsets.NewMockIPSets(), rt6, &fakeFDB{}, vxlanDev6, 6, 1390, cfg, fakeNL{}),
+		intdataplane.VerifNewNoEncapManager(rt6, 6, cfg, fakeNL{}),
 	)
 	return k
 }
@@ -166,26 +181,34 @@ type progEntry struct {
 
 func (k *mgrSink) byDst() map[string][]progEntry {
 	out := map[string][]progEntry{}
-	classes := make([]int, 0)
-	for cl := range k.rt.routes {
-		classes = append(classes, int(cl))
-	}
-	sort.Ints(classes)
-	for _, cl := range classes {
-		ifs := k.rt.routes[routetable.RouteClass(cl)]
-		for _, ifn := range sortedKeysB(ifs) {
-			for _, t := range ifs[ifn] {
-				d := t.CIDR.String()
-				out[d] = append(out[d], progEntry{routetable.RouteClass(cl), ifn, t})
+	for ti, tbl := range []*recRouteTable{k.rt, k.rt6} {
+		classes := make([]int, 0)
+		for cl := range tbl.routes {
+			classes = append(classes, int(cl))
+		}
+		sort.Ints(classes)
+		for _, cl := range classes {
+			ifs := tbl.routes[routetable.RouteClass(cl)]
+			for _, ifn := range sortedKeysB(ifs) {
+				for _, t := range ifs[ifn] {
+					d := t.CIDR.String()
+					if isV6(d) != (ti == 1) {
+						d = "wrong-table:" + d // a v4 route in the v6 table or vice versa is explained by nothing
+					}
+					out[d] = append(out[d], progEntry{routetable.RouteClass(cl), ifn, t})
+				}
 			}
 		}
 	}
 	return out
 }
 
-func classesFor(t proto.IPPoolType) (tunnel, same, bh routetable.RouteClass, dev string) {
+func classesFor(t proto.IPPoolType, v6 bool) (tunnel, same, bh routetable.RouteClass, dev string) {
 	switch t {
 	case proto.IPPoolType_VXLAN:
+		if v6 {
+			return routetable.RouteClassVXLANTunnel, routetable.RouteClassVXLANSameSubnet, routetable.RouteClassBlackholeVXLAN, vxlanDev6
+		}
 		return routetable.RouteClassVXLANTunnel, routetable.RouteClassVXLANSameSubnet, routetable.RouteClassBlackholeVXLAN, vxlanDev
 	case proto.IPPoolType_IPIP:
 		return routetable.RouteClassIPIPTunnel, routetable.RouteClassIPIPSameSubnet, routetable.RouteClassBlackholeIPIP, ipipDev
@@ -216,7 +239,7 @@ func fmtEntries(es []progEntry) string {
 func checkMgrSink(c *harness.Case, s *state, ds dpSink) *verdict {
 	k := ds.(*mgrSink)
 	c.Count("dataplane_msgs", k.msgs)
-	c.Count("setroutes_calls", k.rt.nSet)
+	c.Count("setroutes_calls", k.rt.nSet+k.rt6.nSet)
 	prog := k.byDst()
 	mine := s.Nodes[me]
 
@@ -226,24 +249,32 @@ func checkMgrSink(c *harness.Case, s *state, ds dpSink) *verdict {
 			c.Count("p2_skipped_no_pool", 1)
 			continue
 		}
+		v6 := isV6(t.Dst)
 		owner := s.Nodes[t.Owner]
-		if owner == nil || mine == nil {
+		if owner == nil || mine == nil || s.nodeAddr(t.Owner, v6) == "" || s.nodeAddr(me, v6) == "" {
 			c.Count("p2_skipped_node_unknown", 1)
 			continue
 		}
-		if pi.ptype == proto.IPPoolType_VXLAN && mine.VXLANTun == "" {
+		myTun, ownerTun := mine.VXLANTun, owner.VXLANTun
+		if v6 {
+			myTun, ownerTun = mine.VXLANTun6, owner.VXLANTun6
+		}
+		if pi.ptype == proto.IPPoolType_VXLAN && myTun == "" {
 			c.Count("p2_skipped_no_local_vtep", 1)
 			continue
 		}
-		tunnelCl, sameCl, _, dev := classesFor(pi.ptype)
-		direct := pi.ptype == proto.IPPoolType_NO_ENCAP || (pi.cs && s.inMySubnet(t.Owner))
+		tunnelCl, sameCl, _, dev := classesFor(pi.ptype, v6)
+		direct := pi.ptype == proto.IPPoolType_NO_ENCAP || (pi.cs && s.inMySubnet(t.Owner, v6))
 		es := prog[t.Dst]
-		what := fmt.Sprintf("%s %s owned by %s (%s), pool %v cross-subnet=%v, local node %s", t.Kind, t.Dst, t.Owner, owner.Addr, pi.ptype, pi.cs, mine.Addr)
+		what := fmt.Sprintf("%s %s owned by %s (%s), pool %v cross-subnet=%v, local node %s", t.Kind, t.Dst, t.Owner, s.nodeAddr(t.Owner, v6), pi.ptype, pi.cs, s.nodeAddr(me, v6))
 		if direct {
 			c.Count("p2_direct_targets", 1)
+			if v6 {
+				c.Count("p2_direct_targets_v6", 1)
+			}
 			if len(es) != 1 || es[0].class != sameCl || es[0].iface != parentDev || es[0].t.Type != routetable.TargetTypeNoEncap ||
-				es[0].t.GW == nil || es[0].t.GW.String() != s.nodeIP(t.Owner) {
-				return &verdict{"direct-route-wrong:" + t.Kind, fmt.Sprintf("%s must be routed directly via %s on %s in class %v; programmed: %s", what, s.nodeIP(t.Owner), parentDev, sameCl, fmtEntries(es))}
+				es[0].t.GW == nil || es[0].t.GW.String() != s.nodeIP(t.Owner, v6) {
+				return &verdict{"direct-route-wrong:" + t.Kind, fmt.Sprintf("%s must be routed directly via %s on %s in class %v; programmed: %s", what, s.nodeIP(t.Owner, v6), parentDev, sameCl, fmtEntries(es))}
 			}
 			continue
 		}
@@ -255,7 +286,7 @@ func checkMgrSink(c *harness.Case, s *state, ds dpSink) *verdict {
 		}
 		switch pi.ptype {
 		case proto.IPPoolType_VXLAN:
-			if owner.VXLANTun == "" {
+			if ownerTun == "" {
 				c.Count("p2_skipped_owner_no_vtep", 1)
 				if len(es) != 0 {
 					return &verdict{"route-without-vtep", fmt.Sprintf("%s: the owner has no VTEP yet something is programmed: %s", what, fmtEntries(es))}
@@ -263,13 +294,16 @@ func checkMgrSink(c *harness.Case, s *state, ds dpSink) *verdict {
 				continue
 			}
 			c.Count("p2_tunnel_targets", 1)
-			if len(es) != 1 || es[0].t.Type != routetable.TargetTypeVXLAN || es[0].t.GW == nil || es[0].t.GW.String() != owner.VXLANTun {
-				return &verdict{"tunnel-route-wrong:" + t.Kind, fmt.Sprintf("%s must be routed on %s via the owner's VTEP %s; programmed: %s", what, dev, owner.VXLANTun, fmtEntries(es))}
+			if v6 {
+				c.Count("p2_tunnel_targets_v6", 1)
+			}
+			if len(es) != 1 || es[0].t.Type != routetable.TargetTypeVXLAN || es[0].t.GW == nil || es[0].t.GW.String() != netip.MustParseAddr(ownerTun).String() {
+				return &verdict{"tunnel-route-wrong:" + t.Kind, fmt.Sprintf("%s must be routed on %s via the owner's VTEP %s; programmed: %s", what, dev, ownerTun, fmtEntries(es))}
 			}
 		case proto.IPPoolType_IPIP:
 			c.Count("p2_tunnel_targets", 1)
-			if len(es) != 1 || es[0].t.Type != routetable.TargetTypeOnLink || es[0].t.GW == nil || es[0].t.GW.String() != s.nodeIP(t.Owner) {
-				return &verdict{"tunnel-route-wrong:" + t.Kind, fmt.Sprintf("%s must be routed on %s on-link via %s; programmed: %s", what, dev, s.nodeIP(t.Owner), fmtEntries(es))}
+			if len(es) != 1 || es[0].t.Type != routetable.TargetTypeOnLink || es[0].t.GW == nil || es[0].t.GW.String() != s.nodeIP(t.Owner, v6) {
+				return &verdict{"tunnel-route-wrong:" + t.Kind, fmt.Sprintf("%s must be routed on %s on-link via %s; programmed: %s", what, dev, s.nodeIP(t.Owner, v6), fmtEntries(es))}
 			}
 		}
 	}
@@ -279,14 +313,14 @@ func checkMgrSink(c *harness.Case, s *state, ds dpSink) *verdict {
 	for _, b := range sortedKeysB(s.Blocks) {
 		bv := s.Blocks[b]
 		p := netip.MustParsePrefix(b)
-		if bv.Host != me || p.Bits() == 32 {
+		if bv.Host != me || fullLen(p) {
 			continue
 		}
 		pi := s.poolFor(p)
 		if pi == nil || pi.lb || pi.ptype == proto.IPPoolType_NONE {
 			continue
 		}
-		_, _, bh, _ := classesFor(pi.ptype)
+		_, _, bh, _ := classesFor(pi.ptype, isV6(b))
 		wantBH[b] = bh
 		c.Count("p2_local_blocks", 1)
 		found := false
@@ -301,11 +335,14 @@ func checkMgrSink(c *harness.Case, s *state, ds dpSink) *verdict {
 	}
 	weps := s.wepIPs()
 	for _, dst := range sortedKeysB(prog) {
+		if strings.HasPrefix(dst, "wrong-table:") {
+			return &verdict{"route-in-wrong-family-table", fmt.Sprintf("programmed route %s %s", dst, fmtEntries(prog[dst]))}
+		}
 		d := netip.MustParsePrefix(dst)
 		for _, e := range prog[dst] {
 			c.Count("p2_programmed_routes_checked", 1)
 			if isBlackholeClass(e.class) || e.t.Type == routetable.TargetTypeBlackhole {
-				if d.Bits() == 32 && weps[d.Addr().String()] {
+				if fullLen(d) && weps[d.Addr().String()] {
 					return &verdict{"blackhole-covers-local-workload", fmt.Sprintf("blackhole route %s is a local workload's own address: %s", dst, fmtEntries(prog[dst]))}
 				}
 				if cl, ok := wantBH[dst]; !ok || cl != e.class {
@@ -320,7 +357,7 @@ func checkMgrSink(c *harness.Case, s *state, ds dpSink) *verdict {
 				if b == dst && bv.Host != "" && bv.Host != me {
 					explained = true
 				}
-				if d.Bits() == 32 && p.Contains(d.Addr()) {
+				if fullLen(d) && p.Contains(d.Addr()) {
 					for ord, y := range bv.Allocs {
 						if y != "" && y != bv.Host && ordinalIP(b, ord) == d.Addr().String() {
 							explained = true
@@ -328,7 +365,7 @@ func checkMgrSink(c *harness.Case, s *state, ds dpSink) *verdict {
 					}
 				}
 			}
-			if d.Bits() == 32 && s.tunnelAddrs()[d.Addr().String()] {
+			if fullLen(d) && s.tunnelAddrs()[d.Addr().String()] {
 				explained = true
 			}
 			if !explained {
